@@ -574,7 +574,7 @@ theorem pushStructEntries_interpH (ext : Ext) (nar : Bool) : ∀ (es : SEntries)
     simp only [pushStructEntries] at h; cases h
     have := hm.unique hm'; subst this
     intro j f _
-    exact ⟨[], by simp [interpByKey], by simp⟩
+    exact ⟨[], by simp [interpByKey, keyOf_eq], by simp⟩
   | .cons k x rest, fs0, s, s', adds, adds', sfs, hraw, hnf, hm, hm', hsl, h, hsm => by
     have hraw' : (rawOK nar k = true ∧ rawOK nar x = true) ∧ rawOKe nar rest = true := by simpa only [rawOK_some, rawOK_newtypeStruct, rawOK_newtypeVariant, rawOK_seq, rawOK_tuple, rawOK_tupleStruct, rawOK_tupleVariant, rawOK_record, rawOK_structVariant, rawOK_map, rawOK_mapRaw, rawOKs_cons, rawOKf_cons, rawOKe_cons, Bool.and_eq_true] using hraw
     simp only [pushStructEntries] at h
@@ -588,7 +588,7 @@ theorem pushStructEntries_interpH (ext : Ext) (nar : Bool) : ∀ (es : SEntries)
       obtain ⟨found, hf, ha⟩ := ih j f hj
       refine ⟨found, ?_, ha⟩
       have hne := key_none hm.nodup hnone (names_at hsl hj)
-      simp only [interpByKey, hf, bind, Except.bind, hopt, hne]; rfl
+      simp only [interpByKey, keyOf_eq, hf, bind, Except.bind, hopt, hne]; rfl
     · rename_i idx hidx
       obtain ⟨s1, h1, h⟩ := (bind_ok _ _ _).1 h
       obtain ⟨c, m, c', lv, hget, _, hpc, hwc, hsc, hdec, hm1, hun, _, hlta, hfs1, _⟩ :=
@@ -613,11 +613,11 @@ theorem pushStructEntries_interpH (ext : Ext) (nar : Bool) : ∀ (es : SEntries)
         rw [if_pos rfl] at ha
         refine ⟨lv :: found, ?_, by rw [ha, hun]; rfl⟩
         simp only [decide_true] at hk
-        simp only [interpByKey, hf, bind, Except.bind, hopt, hk, if_true, hlv]; rfl
+        simp only [interpByKey, keyOf_eq, hf, bind, Except.bind, hopt, hk, if_true, hlv]; rfl
       · rw [if_neg hij] at ha
         refine ⟨found, ?_, ha⟩
         simp only [hij, decide_false] at hk
-        simp only [interpByKey, hf, bind, Except.bind, hopt, hk]; rfl
+        simp only [interpByKey, keyOf_eq, hf, bind, Except.bind, hopt, hk]; rfl
 
 /-- a struct builder receiving a raw key/value call stream that alternates: the fields gather what the pairs give
 them by key (`fields.length < UNKNOWN_KEY`: no field index is the sentinel) -/
@@ -631,7 +631,7 @@ theorem pushStructOps_interpH (ext : Ext) (nar : Bool) : ∀ (ops : SMapOps) (fs
     simp only [pushStructOps] at h; cases h
     have := hm.unique hm'; subst this
     intro j f _
-    exact ⟨[], by simp [interpByKeyOps], by simp⟩
+    exact ⟨[], by simp [interpByKeyOps, keyOf_eq], by simp⟩
   | .key _ .nil, _, _, _, _, _, _, _, hraw, _, _, _, _, _, _, _ => by simp [ssaO] at hraw
   | .key _ (.key _ _), _, _, _, _, _, _, _, hraw, _, _, _, _, _, _, _ => by simp [ssaO] at hraw
   | .value _ _, _, _, _, _, _, _, _, hraw, _, _, _, _, _, _, _ => by simp [ssaO] at hraw
@@ -652,7 +652,7 @@ theorem pushStructOps_interpH (ext : Ext) (nar : Bool) : ∀ (ops : SMapOps) (fs
       obtain ⟨found, hf, ha⟩ := ih j f hj
       refine ⟨found, ?_, ha⟩
       have hne := key_none hm.nodup hidx (names_at hsl hj)
-      simp only [interpByKeyOps, hf, bind, Except.bind, hopt, hne]; rfl
+      simp only [interpByKeyOps, keyOf_eq, hf, bind, Except.bind, hopt, hne]; rfl
     | some idx =>
       have hlt : idx < s.fields.length := by rw [← BL.names_length]; exact indexOfName_lt' hidx
       have hneq : (idx != UNKNOWN_KEY) = true := by simp; omega
@@ -683,11 +683,11 @@ theorem pushStructOps_interpH (ext : Ext) (nar : Bool) : ∀ (ops : SMapOps) (fs
         rw [if_pos rfl] at ha
         refine ⟨lv :: found, ?_, by rw [ha, hun]; rfl⟩
         simp only [decide_true] at hk
-        simp only [interpByKeyOps, hf, bind, Except.bind, hopt, hk, if_true, hlv]; rfl
+        simp only [interpByKeyOps, keyOf_eq, hf, bind, Except.bind, hopt, hk, if_true, hlv]; rfl
       · rw [if_neg hij] at ha
         refine ⟨found, ?_, ha⟩
         simp only [hij, decide_false] at hk
-        simp only [interpByKeyOps, hf, bind, Except.bind, hopt, hk]; rfl
+        simp only [interpByKeyOps, keyOf_eq, hf, bind, Except.bind, hopt, hk]; rfl
 
 /-- a Map builder receiving a raw key/value call stream (accepted ⇒ alternating): entry by entry -/
 theorem pushMapOps_interpH (ext : Ext) (nar : Bool) : ∀ (ops : SMapOps) (offs : List Int) (ks vs : B) (r : List Int × B × B)
